@@ -157,20 +157,24 @@ def prepare_evo_aspirate_dispense_parameters(
                 vol = float(vol)
             except:
                 raise ValueError(f"Invalid volume: {vol}")
-            if vol < 0 or vol > 7158278 or np.isnan(vol):
+            if vol < 0 or np.isnan(vol):
                 raise ValueError(f"Invalid volume: {vol}")
             if max_volume is not None and vol > max_volume:
                 raise InvalidOperationError(f"Invalid volume: volume of {vol} exceeds max_volume.")
+            if vol > 7158278:
+                raise ValueError(f"Invalid volume: {vol}")
         if not len(volume) == len(tips) == len(wells_list):
             raise Exception(
                 f"Invalid volume: Tips, wells, and volume lists have different lengths ({len(tips)}, {len(wells_list)} and {len(volume)}, respectively)."
             )
     elif isinstance(volume, (float, int)):
         # test volume like in the list section
-        if volume < 0 or volume > 7158278 or np.isnan(volume):
+        if volume < 0 or np.isnan(volume):
             raise ValueError(f"Invalid volume: {volume}")
         if max_volume is not None and volume > max_volume:
             raise InvalidOperationError(f"Invalid volume: volume of {volume} exceeds max_volume.")
+        if volume > 7158278:
+            raise ValueError(f"Invalid volume: {volume}")
         # convert volume to list and multiply list to reach identical length as wells
         volume = [float(volume)] * len(wells_list)
     else:
